@@ -245,7 +245,7 @@ def generate_type_alias(
         lines += [
             f"pub type {alias_def.name} = {get_type_name(alias_def.type, types, spec)};"
         ]
-    elif alias_def.type.kind == "base":
+    elif alias_def.type.kind in ("base", "map", "tuple", "stringLiteral"):
         lines += doc
         lines += [
             f"pub type {alias_def.name} = {get_type_name(alias_def.type, types, spec)};"
